@@ -123,7 +123,7 @@ const STARVE_CASES: u64 = 2;
 /// the real symphonia decoder on files that end before the frame the scheduler expects
 const EOF_CASES: u64 = 2;
 /// one switch to the decoder inside a callback: every stream.* sync point of the audio thread x decoder run length
-const MIDCB_CASES: u64 = 4;
+const MIDCB_CASES: u64 = 6;
 /// an audio callback placed inside one decoder loop iteration (the decoder parked at its n-th sync point)
 const MIDIT_CASES: u64 = 1;
 
@@ -145,7 +145,7 @@ impl Check for C10 {
 			"one audio callback inside a decoder loop iteration: 6-frame finite stream, the decoder has delivered 3..6 frames and the ring is drained; the decoder is parked at its n-th stream.* sync point (every n over the next three iterations), one callback runs, the decoder goes on".to_string()
 		} else if idx >= sc.len() as u64 + E2_CASES + STARVE_CASES + EOF_CASES {
 			let w = idx - sc.len() as u64 - E2_CASES - STARVE_CASES - EOF_CASES;
-			format!("one decoder burst inside a callback: 12-frame {} stream, internal buffer 4, decoder {} frames ahead when the callback begins; at the n-th pass of the audio thread through a stream.* sync point (every n) the decoder runs k iterations (k = 1..14)", if w % 2 == 0 { "finite" } else { "looping" }, if w / 2 == 0 { 3 } else { 6 })
+			format!("one decoder burst inside a callback: 12-frame {} stream, internal buffer 4, decoder {} frames ahead when the callback begins; at the n-th pass of the audio thread through a stream.* sync point (every n) the decoder runs k iterations (k = 1..14)", if w >= 4 { "looping, sliced out of a longer source," } else if w % 2 == 0 { "finite" } else { "looping" }, if w == 5 || (w < 4 && w / 2 == 1) { 6 } else { 3 })
 		} else if idx >= sc.len() as u64 + E2_CASES + STARVE_CASES {
 			format!("symphonia decoder, {}: the sound stops, the error (if any) can be popped, the decoder thread ends and releases the file", ["wav whose header promises 2000 frames but whose data ends after 1000", "intact wav of 1000 frames played with a slice that extends beyond its end"][(idx - sc.len() as u64 - E2_CASES - STARVE_CASES) as usize])
 		} else if idx >= sc.len() as u64 + E2_CASES {
@@ -203,7 +203,9 @@ impl Check for C10 {
 		} else if idx >= sc.len() as u64 + E2_CASES + STARVE_CASES + EOF_CASES {
 			pacer::set_mode(pacer::Mode::Pacer);
 			let w = idx - sc.len() as u64 - E2_CASES - STARVE_CASES - EOF_CASES;
-			if let Err(p) = catch(|| mid_callback(w % 2 == 1, if w / 2 == 0 { 3 } else { 6 }, ctx)) {
+			// cases 4, 5: the looping stream is a slice (5..17) of a 20-frame source whose other frames are foreign
+			let r = if w >= 4 { catch(|| mid_callback(true, if w == 4 { 3 } else { 6 }, true, ctx)) } else { catch(|| mid_callback(w % 2 == 1, if w / 2 == 0 { 3 } else { 6 }, false, ctx)) };
+			if let Err(p) = r {
 				ctx.fail(format!("panic: {} :: decoder burst inside a callback", p), format!("scenario {}", w));
 			}
 		} else if idx >= sc.len() as u64 + E2_CASES + STARVE_CASES {
@@ -1075,7 +1077,7 @@ fn past_eof(which: u64, ctx: &mut Ctx) {
 // This is the preemption-bound-1 slice of the interleaving space with the run length of the preempting thread
 // enumerated, on a stream long enough for the ring to run dry and refill.
 
-fn mid_callback(looping: bool, ahead: u64, ctx: &mut Ctx) {
+fn mid_callback(looping: bool, ahead: u64, sliced: bool, ctx: &mut Ctx) {
 	const N: usize = 12;
 	let codes: Vec<f32> = (0..N).map(|i| (1 + (i * 5) % N) as f32 / 32.0).collect();
 	let ibs = 4usize;
@@ -1089,9 +1091,17 @@ fn mid_callback(looping: bool, ahead: u64, ctx: &mut Ctx) {
 			ctx.evals += 1;
 			let mut m = rig::manager(SR, ibs, rig::caps(2), MainTrackBuilder::new());
 			let first = pacer::count();
-			let frames: Vec<Frame> = codes.iter().map(|c| Frame::new(*c, -*c / 2.0)).collect();
+			let mut frames: Vec<Frame> = codes.iter().map(|c| Frame::new(*c, -*c / 2.0)).collect();
+			if sliced {
+				// 5 foreign frames in front, 3 behind: the stream proper is the slice 5..17
+				let foreign = Frame::new(0.96875, -0.96875);
+				frames = std::iter::repeat(foreign).take(5).chain(frames).chain(std::iter::repeat(foreign).take(3)).collect();
+			}
 			let (dec, stats) = ScriptedDecoder::new(frames, SR, vec![2, 1, 3], 1);
 			let mut data = StreamingSoundData::from_decoder(dec);
+			if sliced {
+				data = data.slice(Region { start: kira::sound::PlaybackPosition::Samples(5), end: kira::sound::EndPosition::Custom(kira::sound::PlaybackPosition::Samples(17)) });
+			}
 			if looping {
 				data = data.loop_region(Region::from(..));
 			}
@@ -1114,7 +1124,7 @@ fn mid_callback(looping: bool, ahead: u64, ctx: &mut Ctx) {
 			n_points = n_points.max(seen);
 			let fired = site.is_some();
 			any_fired |= fired;
-			let desc = || format!("12-frame {} stream (frame i = (1 + 5i mod 12)/32), internal buffer 4; decoder {} iterations ahead; in the second callback, at pass #{} of the audio thread through a stream.* sync point ({}), the decoder runs {} iterations; afterwards it keeps ahead", if looping { "looping" } else { "finite" }, ahead, nth, site.unwrap_or("-"), k);
+			let desc = || format!("12-frame {} stream{} (frame i = (1 + 5i mod 12)/32), internal buffer 4; decoder {} iterations ahead; in the second callback, at pass #{} of the audio thread through a stream.* sync point ({}), the decoder runs {} iterations; afterwards it keeps ahead", if looping { "looping" } else { "finite" }, if sliced { " (slice 5..17 of a 20-frame source)" } else { "" }, ahead, nth, site.unwrap_or("-"), k);
 			// (kind of deviation - part of the signature, detail)
 			let mut bad: Option<(String, String)> = None;
 			if !rep.ok() {
